@@ -78,6 +78,11 @@ CLAIMS = {
         design_ref="DESIGN.md §3 C18",
         note="Lease arithmetic over all T1/T2/lease values (ordering of renew/rebind/expiry) is not decided. Trusted base as C17.",
         technique="static analysis: guard must-pass-through, finite-domain abstract interpretation, origin-tree value shapes over rustc MIR"),
+    'C19': dict(
+        text="Completion of a query is dominated by the port, transaction-id, question-type and question-name guards (plus opcode / response bit / single question); addresses are only taken behind the per-record name match; eq_names answers Ok(true) only when both label iterators are exhausted; accepts = (port 53 and configured server) or mDNS port; name loops are driven by strictly consuming iterators (parse_name pointer window shrinks, R07.5); dispatch: capped doubling back-off, fail-over behind the timeout and re-arming it, Failure behind server exhaustion; poll_at mirrors retransmit and timeout deadlines (R13.1).",
+        design_ref="DESIGN.md §3 C19",
+        note="Bounded completion time over all schedules is not decided. Trusted base as C17.",
+        technique="static analysis: guard must-pass-through, loop progress witnesses, value-origin shapes over rustc MIR"),
 }
 
 NOT_YET = "structural rules for this property are not built yet in this revision; no static claim is made"
